@@ -13,7 +13,7 @@ RULE = ('1..5 distinct registered AIs (every AI reached; per-AI counts in notes)
 ASSUME = ['values avoid the separator character and parentheses (compact() documents parentheses as separators)',
           'decimal indicator: 0..k-1 for fixed N<k>, 0..min(9,digits) for N..<k>', 'dates 2000-2049',
           'info(s)==generating mapping is only a diagnostic, not asserted (statement relates info(validated) to info(input))']
-SEPS = ['', '\x1d', '|', '~']
+SEPS = ['', '', '\x1d', '|', '~', '[FNC1]', '<GS>']
 
 
 def classify(items, vals, sep):
